@@ -374,6 +374,8 @@ class Interp(object):
             raise Unanalysable(str(pe))
         if it is None:
             raise Unanalysable('unknown static %s' % name)
+        if name in getattr(self, 'forbidden_statics', ()):
+            raise Unanalysable('evaluation reached the series table %s' % name)
         key = (it['file'], name)
         if key in self.static_cache:
             return self.static_cache[key]
@@ -2375,7 +2377,8 @@ class Interp(object):
         if name == 'set':
             c.v = a[0]
             return UNIT
-        if name == 'lock':
+        if name in ('lock', 'try_lock'):
+            # sequential evaluation: the mutex is free and unpoisoned (contention / poisoning are C10's effect rules, not a value question)
             return Res(c.v, True)
         if name == 'clone':
             return CellV(deep_copy(c.v), c.kind)
